@@ -325,7 +325,7 @@ def error_line(msg):
 
 
 # ------------------------------------------------------------------ engine B
-SAN_ASAN = "detect_leaks=1:abort_on_error=0:symbolize=1:detect_odr_violation=0:handle_abort=0:allocator_may_return_null=1:malloc_context_size=12"
+SAN_ASAN = "detect_leaks=1:abort_on_error=0:symbolize=1:detect_odr_violation=0:handle_abort=0:allocator_may_return_null=1:malloc_context_size=12:max_malloc_fill_size=268435456:malloc_fill_byte=190"
 SAN_UBSAN = "print_stacktrace=1:halt_on_error=1"
 
 _TERMINATE = re.compile(r"terminate called after throwing an instance of '([^']+)'")
